@@ -262,12 +262,12 @@ def _wire(case):
     return wire
 
 
-def sweep_units(tier, root):
+def _sweep_units(tier, root):
     n = 30 if tier == 'quick' else 500
     return [{'seed': (root * 31337 + i * 92821) & 0xffffffff, 'i': i} for i in range(n)]
 
 
-def expand_unit(u):
+def _expand_unit(u):
     """every truncation offset of a generated well-formed multipart body"""
     rng = random.Random(u['seed'])
     fields = gm.gen_fields(rng, max_fields=4, max_file=60)
@@ -478,3 +478,26 @@ def summarise(case):
 
 def setup_worker():
     _twin.warm(_gen_case, _run_case)
+
+
+TWIN_SWEEPS = {'quick': 10, 'thorough': 200}
+
+
+def sweep_units(tier, root):
+    units = _sweep_units(tier, root)
+    # exhaustive single pre-emption over small cases: one unit = one case x every traced step of its solo run
+    units += [{'twin_sweep': i, 'seed': (root * 2654435761 + i * 40503) & 0xffffffff} for i in range(TWIN_SWEEPS[tier])]
+    return units
+
+
+def expand_unit(u):
+    if 'twin_sweep' not in u:
+        yield from _expand_unit(u)
+        return
+    import random as _random
+    rng = _random.Random(u['seed'])
+    for _ in range(50):
+        inner = _gen_case(rng, 'quick')
+        if len(repr(inner)) < 1500:
+            break
+    yield from _twin.sweep(lambda c, i: _run_case(c), inner)
